@@ -115,7 +115,8 @@ func (a *TrivApp) LoadBlockMeta(height uint64) *types.BlockMeta {
 }
 func (a *TrivApp) LoadBlock(height uint64) *types.Block { return a.Blocks[height] }
 func (a *TrivApp) LoadBlockPart(height uint64, index int) *types.Part {
-	if p := a.Parts[height]; p != nil {
+	// as BlockStore.LoadBlockPart: a part that is not stored (any index outside the stored set) is nil, not a panic
+	if p := a.Parts[height]; p != nil && index >= 0 && index < p.Total() {
 		return p.GetPart(index)
 	}
 	return nil
@@ -188,6 +189,9 @@ func Config() *cfg.ConsensusConfig {
 	c.CreateEmptyBlocks = true
 	c.CreateEmptyBlocksInterval = 0
 	c.SkipTimeoutCommit = false
+	// only the reactor's per-peer gossip routines read these (C16 runs them for a bounded number of iterations)
+	c.PeerGossipSleepDuration = 1
+	c.PeerQueryMaj23SleepDuration = 1
 	return c
 }
 
